@@ -9,7 +9,8 @@ SimDepth == 61
 One(S) == {RandomElement(S)}
 Coin == RandomElement({TRUE, FALSE})
 PickOne(good, all) == {IF good # {} /\ Coin THEN RandomElement(good) ELSE RandomElement(all)}
-Entry == IF phase' = "idle" /\ last'.op # "init" THEN last' @@ [com |-> ObsOf(com')] ELSE last'
+\* ... and steps inside a transaction carry the in-transaction view after them
+Entry == IF phase' = "idle" /\ last'.op # "init" THEN last' @@ [com |-> ObsOf(com')] ELSE last' @@ [view |-> TxView']
 SimInit == Init /\ hist = << >>
 \* three calls are drawn per step and TLC takes one of their successors (a disabled draw contributes none)
 SimStep ==
